@@ -3,7 +3,7 @@ From Coq Require Import NArith List Bool.
 From Verif Require Import Sx Str Tok.
 From Verif.Gen Require Import InputStream.
 From Verif.Model Require Import C05.
-From Verif.Proofs Require Import C05 C05pos.
+From Verif.Proofs Require Import C05 C05pos C05until.
 Import ListNotations.
 Local Open Scope N_scope.
 
@@ -40,12 +40,29 @@ Theorem c05_position_segmentation_independent : forall reads k s,
   position s = pos_of (firstn k (norm (concat reads))).
 Proof. exact position_segmentation_independent. Qed.
 
-(* PARTIAL: charsUntil and unget are modelled (Model/C05.v) and tied to the real class by exact-agreement
-   correspondence on client operation sequences, but positions after THEM (unget adjusts the counters by hand) are
-   not covered by the theorem above; byte sources go through codecs decoders that are not modelled. *)
+(* ... and the same with charsUntil: after ANY sequence of char() and charsUntil() calls (run_sops, up to the first
+   EOF from char(); the fuel is the one the executable entry point run_c05 gives charsUntil), for every
+   segmentation, the characters delivered so far followed by what remains are the newline-normalised input --
+   nothing is lost, repeated or reordered across chunk boundaries -- and position() is the (line, column) the
+   delivered characters determine *)
+Theorem c05_position_after_chars_and_runs : forall reads ops s d,
+  Forall (fun r => r <> []) reads ->
+  run_sops (4 + length (concat reads)) ops (init reads) = (s, d) ->
+  norm (concat reads) = d ++ remaining s /\ position s = pos_of d.
+Proof. exact position_after_chars_and_runs_entry. Qed.
+
+(* PARTIAL: unget is modelled (Model/C05.v) and tied to the real class by exact-agreement correspondence on client
+   operation sequences, but positions after IT (unget adjusts the counters by hand) are not covered by the theorems
+   above; byte sources go through codecs decoders that are not modelled. *)
 
 (* non-vacuity: "a\r\nb" delivered as "a\r" + "\n" + "b" and as single characters *)
 Example c05_example :
   drain 9 (init [[97; 13]; [10]; [98]]) = [97; 10; 98] /\ drain 9 (init [[97]; [13]; [10]; [98]]) = [97; 10; 98] /\
   Forall (fun d : str => d <> []) [[97]; [13]; [10]; [98]].
 Proof. split; [|split]; [vm_compute; reflexivity | vm_compute; reflexivity | repeat constructor; discriminate]. Qed.
+(* "ab\r" + "\nc" + "d": a run of letters across the CR/LF cut, then the newline, then one character *)
+Example c05_example_runs :
+  let letters c := (97 <=? c) && (c <=? 122) in
+  let '(s, d) := run_sops 9 [SUntil letters; SChar; SChar] (init [[97; 98; 13]; [10; 99]; [100]]) in
+  d = [97; 98; 10; 99] /\ position s = (2, 1)%nat /\ remaining s = [100].
+Proof. vm_compute. repeat split. Qed.
